@@ -81,7 +81,8 @@ def handleGates (op : String) (j : Json) : Option Json :=
     let n ← (jField? j "n").bind jNat?
     let d ← (jField? j "d").bind jNat?
     let hw ← (jField? j "hw").bind jBool?
-    pure (Json.mkObj [("seq", ofOpt (fun l => Json.arr (l.map giToJson).toArray) (NV.nvRot hw g n d))])
+    pure (Json.mkObj [("seq", ofOpt (fun l => Json.arr (l.map giToJson).toArray) (NV.nvRot hw g n d)),
+      ("wire", toJson (NV.nvRotWire hw g n d).isSome)])
   else if op == "nv.placement" then do
     let a ← (jField? j "a").bind jNat?
     let b ← (jField? j "b").bind jNat?
